@@ -438,6 +438,9 @@ type StressCase struct {
 	// Syncs resizes AND type changes / deletions / re-additions (a limit of -1 = token bucket, -2 = exempt,
 	// -3 = schema deleted); in flight is counted per limiter object handed out.
 	Full bool `json:"full,omitempty"`
+	// Alike (hex, Full only): a second, look-alike schema name ("S", "s ", ...) configured beside "s" with its own,
+	// larger limit and used by every third goroutine: the two must not share a limit or a counter.
+	Alike string `json:"alike,omitempty"`
 }
 
 func runStress(c *rig.Ctx, s StressCase, record bool) bool {
@@ -533,7 +536,17 @@ func runStress(c *rig.Ctx, s StressCase, record bool) bool {
 	return true
 }
 
-func stressSpec(limit int) proxyv1alpha1.FlowControl {
+func stressSpec(limit int, alike string, alikeLimit int) proxyv1alpha1.FlowControl {
+	fc := stressSpec1(limit)
+	if alike != "" {
+		fc.Schemas = append(fc.Schemas, proxyv1alpha1.FlowControlSchema{Name: alike,
+			FlowControlSchemaConfiguration: proxyv1alpha1.FlowControlSchemaConfiguration{
+				MaxRequestsInflight: &proxyv1alpha1.MaxRequestsInflightFlowControlSchema{Max: int32(alikeLimit)}}})
+	}
+	return fc
+}
+
+func stressSpec1(limit int) proxyv1alpha1.FlowControl {
 	sch := proxyv1alpha1.FlowControlSchema{Name: "s"}
 	switch {
 	case limit >= 0:
@@ -578,31 +591,41 @@ func runStressFull(c *rig.Ctx, s StressCase, record bool) bool {
 			hi = l
 		}
 	}
-	lim.Sync(stressSpec(s.Limits[0]))
-	var perObj sync.Map // limiter object -> *int64 in flight
-	var worst int64
+	alike := rig.UnHex(s.Alike)
+	alikeLimit := hi + 3
+	lim.Sync(stressSpec(s.Limits[0], alike, alikeLimit))
+	type objKey struct {
+		name string
+		fc   flowcontrol.FlowControl
+	}
+	var perObj sync.Map // (name asked for, limiter object) -> *int64 in flight
+	var worst, worstAlike int64
 	var panics int32
 	var wg sync.WaitGroup
 	stop := make(chan struct{})
 	cfgDone := make(chan struct{})
 	for g := 0; g < s.Goroutines; g++ {
 		wg.Add(1)
+		name, worstOf := "s", &worst
+		if alike != "" && g%3 == 2 {
+			name, worstOf = alike, &worstAlike
+		}
 		go func() {
 			defer wg.Done()
 			for i := 0; i < s.Iterations; i++ {
 				_, p := rig.Recover(func() {
-					fc := lim.GetOrDefault("s")
+					fc := lim.GetOrDefault(name)
 					isMI := fc.Type() == proxyv1alpha1.MaxRequestsInflight
 					if !fc.TryAcquire() {
 						return
 					}
 					if isMI {
-						v, _ := perObj.LoadOrStore(fc, new(int64))
+						v, _ := perObj.LoadOrStore(objKey{name, fc}, new(int64))
 						cnt := v.(*int64)
 						n := atomic.AddInt64(cnt, 1)
 						for {
-							w := atomic.LoadInt64(&worst)
-							if n <= w || atomic.CompareAndSwapInt64(&worst, w, n) {
+							w := atomic.LoadInt64(worstOf)
+							if n <= w || atomic.CompareAndSwapInt64(worstOf, w, n) {
 								break
 							}
 						}
@@ -627,7 +650,7 @@ func runStressFull(c *rig.Ctx, s StressCase, record bool) bool {
 				return
 			default:
 			}
-			lim.Sync(stressSpec(s.Limits[i%len(s.Limits)]))
+			lim.Sync(stressSpec(s.Limits[i%len(s.Limits)], alike, alikeLimit))
 			runtime.Gosched()
 		}
 	}()
@@ -642,12 +665,28 @@ func runStressFull(c *rig.Ctx, s StressCase, record bool) bool {
 	close(stop)
 	<-cfgDone
 	if worst > int64(hi) {
-		return fail("c05.stress-over-admission", fmt.Sprintf("%d requests admitted by one max-in-flight limiter object were in flight at once; the limit never exceeded %d", worst, hi))
+		return fail("c05.stress-over-admission", fmt.Sprintf("%d requests admitted under schema \"s\" by one max-in-flight limiter object were in flight at once; its limit never exceeded %d", worst, hi))
+	}
+	if worstAlike > int64(alikeLimit) {
+		return fail("c05.stress-over-admission", fmt.Sprintf("%d requests admitted under schema %q by one max-in-flight limiter object were in flight at once; its limit is %d", worstAlike, alike, alikeLimit))
 	}
 	// quiescent: make it a max-in-flight schema with a final limit and probe exactly. If it was one all
 	// along (resizes only), its counter has been in use the whole time: no slot may be missing.
 	final := hi + 1
-	lim.Sync(stressSpec(final))
+	lim.Sync(stressSpec(final, alike, alikeLimit))
+	if alike != "" {
+		// the look-alike schema has its own capacity, and filling it must not take anything from "s"
+		fa := lim.GetOrDefault(alike)
+		gotA := 0
+		for i := 0; i < alikeLimit+1; i++ {
+			if fa.TryAcquire() {
+				gotA++
+			}
+		}
+		if gotA != alikeLimit {
+			return fail("c05.stress-capacity", fmt.Sprintf("with nothing in flight, %d of %d probing requests were admitted under schema %q at limit %d", gotA, alikeLimit+1, alike, alikeLimit))
+		}
+	}
 	fc := lim.GetOrDefault("s")
 	got := 0
 	for i := 0; i < final+1; i++ {
@@ -672,6 +711,9 @@ func genStress(c *rig.Ctx) {
 		if i%2 == 1 {
 			// whole stack; every other case also changes type, deletes and re-adds while requests are in flight
 			s.Full = true
+			if c.Rng.Intn(2) == 0 {
+				s.Alike = rig.Hex(rig.Pick(c.Rng, []string{"S", "s ", " s", "ss", "\u017f", "s\x00"}))
+			}
 			if i%4 == 3 {
 				s.Limits = append(s.Limits, -1-c.Rng.Intn(3))
 				c.Rng.Shuffle(len(s.Limits), func(a, b int) { s.Limits[a], s.Limits[b] = s.Limits[b], s.Limits[a] })
@@ -683,6 +725,9 @@ func genStress(c *rig.Ctx) {
 		b := fmt.Sprintf("stress:limits=%d", len(s.Limits))
 		if s.Full {
 			b = "stress-full-stack"
+			if s.Alike != "" {
+				b = "stress-full-stack,look-alike-names"
+			}
 			for _, l := range s.Limits {
 				if l < 0 {
 					b = "stress-full-stack+typechanges"
